@@ -3,6 +3,7 @@ is imported or executed), exposes functions / classes / module-level
 assignments by qualified name and resolves intra-package imports."""
 import ast
 import hashlib
+import json
 import os
 
 REPO = os.environ.get("VELA_REPO", "/repo")
@@ -12,6 +13,196 @@ PKG = "ethosu/vela"
 class AnalysisError(Exception):
     """An anchor vanished or an idiom is not recognised: exit 2, never a pass,
     never a violation."""
+
+
+BASELINE_NAMES = os.path.join(os.path.dirname(os.path.abspath(__file__)), "baseline_names.json")
+_baseline_cache = None
+
+
+def _baseline():
+    global _baseline_cache
+    if _baseline_cache is None:
+        try:
+            with open(BASELINE_NAMES) as f:
+                _baseline_cache = json.load(f)
+        except (OSError, ValueError):
+            _baseline_cache = {}
+    return _baseline_cache
+
+
+def _own_locals(fn):
+    """Names bound in the scope of `fn` itself (parameters, assigned / bound names, names of directly nested
+    functions and classes), not those of nested function / lambda scopes. global / nonlocal names are excluded."""
+    local, declared = set(), set()
+    a = fn.args
+    for x in a.posonlyargs + a.args + a.kwonlyargs + ([a.vararg] if a.vararg else []) + ([a.kwarg] if a.kwarg else []):
+        local.add(x.arg)
+
+    def scan(n):
+        for ch in ast.iter_child_nodes(n):
+            if isinstance(ch, (ast.FunctionDef, ast.AsyncFunctionDef, ast.ClassDef)):
+                local.add(ch.name)
+                for d in ch.decorator_list:
+                    scan(d)
+                continue
+            if isinstance(ch, ast.Lambda):
+                continue
+            if isinstance(ch, (ast.Global, ast.Nonlocal)):
+                declared.update(ch.names)
+            elif isinstance(ch, ast.Name) and isinstance(ch.ctx, (ast.Store, ast.Del)):
+                local.add(ch.id)
+            elif isinstance(ch, ast.ExceptHandler) and ch.name:
+                local.add(ch.name)
+            scan(ch)
+
+    if isinstance(fn, ast.Lambda):
+        scan(fn.body) if False else None
+        for ch in ast.walk(fn.body):
+            if isinstance(ch, ast.NamedExpr) and isinstance(ch.target, ast.Name):
+                pass
+    else:
+        for st in fn.body:
+            if isinstance(st, (ast.FunctionDef, ast.AsyncFunctionDef, ast.ClassDef)):
+                local.add(st.name)
+                continue
+            if isinstance(st, (ast.Global, ast.Nonlocal)):
+                declared.update(st.names)
+            scan_root = ast.Module(body=[st], type_ignores=[])
+            scan(scan_root)
+    local -= declared
+    local.discard("self")
+    local.discard("cls")
+    return local
+
+
+def function_shape(fn):
+    """(shape digest, spellings, refs) of an outermost function: the AST with every function-local name replaced by a
+    positional placeholder, scope by scope (a nested function or lambda has its own locals; its free variables resolve
+    to the enclosing function's placeholders). Two functions with equal digests differ only in how locals are spelled.
+    spellings[i] is the current spelling of placeholder i, refs[i] the (node, field) pairs that carry it."""
+    spellings, refs, parts = [], [], []
+
+    def new_ph(name):
+        spellings.append(name)
+        refs.append([])
+        return len(spellings) - 1
+
+    def resolve(name, scopes):
+        for sc in reversed(scopes):
+            if name in sc:
+                if sc[name] is None:
+                    sc[name] = new_ph(name)
+                return sc[name]
+        return None
+
+    def dump(n, scopes):
+        if isinstance(n, (ast.FunctionDef, ast.AsyncFunctionDef, ast.Lambda)):
+            if n is not fn and not isinstance(n, ast.Lambda):
+                k = resolve(n.name, scopes)
+                if k is not None:
+                    refs[k].append((n, "name"))
+                parts.append(f"F({'$' + str(k) if k is not None else n.name})")
+                for d in n.decorator_list:
+                    dump(d, scopes)
+            else:
+                parts.append(type(n).__name__)
+            inner = scopes + [dict.fromkeys(_own_locals(n))]
+            a = n.args
+            # defaults and annotations are evaluated in the enclosing scope
+            for d in list(a.defaults) + [x for x in a.kw_defaults if x is not None]:
+                dump(d, scopes)
+            for x in a.posonlyargs + a.args + a.kwonlyargs + ([a.vararg] if a.vararg else []) + ([a.kwarg] if a.kwarg else []):
+                k = resolve(x.arg, inner)
+                if k is not None:
+                    refs[k].append((x, "arg"))
+                parts.append(f"A({'$' + str(k) if k is not None else x.arg})")
+                if x.annotation is not None:
+                    dump(x.annotation, scopes)
+            parts.append(f"|{len(a.posonlyargs)},{len(a.args)},{len(a.kwonlyargs)},{bool(a.vararg)},{bool(a.kwarg)}|")
+            if isinstance(n, ast.Lambda):
+                dump(n.body, inner)
+            else:
+                if n.returns is not None:
+                    dump(n.returns, scopes)
+                for st in n.body:
+                    dump(st, inner)
+            parts.append(")")
+            return
+        if isinstance(n, ast.AST):
+            if isinstance(n, ast.Name):
+                k = resolve(n.id, scopes)
+                if k is not None:
+                    refs[k].append((n, "id"))
+                    parts.append(f"N(${k},{type(n.ctx).__name__})")
+                    return
+            parts.append(type(n).__name__ + "(")
+            for f_, v in ast.iter_fields(n):
+                if f_ in ("lineno", "col_offset", "end_lineno", "end_col_offset", "type_comment", "ctx"):
+                    continue
+                if isinstance(n, ast.ExceptHandler) and f_ == "name" and v:
+                    k = resolve(v, scopes)
+                    if k is not None:
+                        refs[k].append((n, "name"))
+                        parts.append(f"E(${k})")
+                        continue
+                parts.append(f_ + "=")
+                dump(v, scopes)
+            parts.append(")")
+        elif isinstance(n, list):
+            parts.append("[")
+            for x in n:
+                dump(x, scopes)
+                parts.append(",")
+            parts.append("]")
+        else:
+            parts.append(repr(n))
+
+    dump(fn, [])
+    return hashlib.sha256("".join(parts).encode()).hexdigest()[:20], spellings, refs
+
+
+def outer_functions(tree):
+    """(qualified name, node) of every function that is not nested inside another function."""
+    out = []
+
+    def visit(body, prefix):
+        for st in body:
+            if isinstance(st, (ast.FunctionDef, ast.AsyncFunctionDef)):
+                out.append((prefix + st.name, st))
+            elif isinstance(st, ast.ClassDef):
+                visit(st.body, prefix + st.name + ".")
+            elif isinstance(st, (ast.If, ast.Try, ast.With, ast.For, ast.While)):
+                for fld in ("body", "orelse", "finalbody"):
+                    visit(getattr(st, fld, []) or [], prefix)
+                for h in getattr(st, "handlers", []) or []:
+                    visit(h.body, prefix)
+
+    visit(tree.body, "")
+    return out
+
+
+def align_local_names(modname, tree):
+    """Undo pure renamings of function-local names: when a function has exactly the shape recorded for it in
+    baseline_names.json (generated from the tree the rules were confirmed on) but spells some locals differently, the
+    locals are renamed back to the recorded spelling before any rule looks at the function. A function whose shape
+    differs from the baseline is left as it is. Returns the number of functions re-spelled."""
+    base = _baseline().get(modname)
+    if not base:
+        return 0
+    n = 0
+    for q, fn in outer_functions(tree):
+        b = base.get(q)
+        if not b:
+            continue
+        digest, names, refs = function_shape(fn)
+        if digest != b["shape"] or names == b["names"] or len(names) != len(b["names"]):
+            continue
+        for cur, old, rf in zip(names, b["names"], refs):
+            if cur != old:
+                for node, field in rf:
+                    setattr(node, field, old)
+        n += 1
+    return n
 
 
 class Module:
@@ -25,6 +216,7 @@ class Module:
         self.src = raw.decode("utf-8")
         self.lines = self.src.splitlines()
         self.tree = ast.parse(self.src, filename=path)
+        self.respelled = align_local_names(name, self.tree)
         self.functions = {}
         self.classes = {}
         self.assigns = {}
